@@ -293,7 +293,7 @@ func senderSpace(o ls.Options, first int) {
 }
 
 func product(o ls.Options) {
-	b := &engine.BFS{NumOps: len(ls.Classes), MaxStates: 3_000_000}
+	b := &engine.BFS{NumOps: len(ls.Classes), MaxStates: 400000, Stop: func() bool { return ctx.ViolationCount() > 0 }}
 	b.Run = func(path []uint16) (string, bool) {
 		snd := refmidi.NewSender(buf)
 		stream := make([]byte, len(path))
